@@ -322,7 +322,7 @@ class Harness:
     outside = ()
     max_validate_quick = 24
     prove_timeout_ms = 60000
-    cell_timeout = {"quick": 240, "thorough": 1500}
+    cell_timeout = {"quick": 480, "thorough": 1800}
 
     def cells(self, tier):
         raise NotImplementedError
